@@ -530,3 +530,20 @@ ob("gen_king_safety_{i}", "chess::verif_chess::inst::gen_king_safety::sq{i}", ["
 for _o in OBS:
     if _o["name"] == "update_phase_contract":
         _o["props"] = _o["props"] + ["C04"]     # update_phase must leave the hash alone (the hash is a function of the position, not of the phase)
+
+
+# the deciding method, per property (MANIFEST.technique)
+for _p, _t in {
+    "C02": "Kani/CBMC contract harnesses of the real Game::push against the rules' successor (spec::apply), per move kind, fully symbolic board / state / move; rules-only induction lemmas",
+    "C03": "Kani/CBMC: pop(push(g,m)) == g on every field, split by postcondition group, plus the modular hash/score step against set_position's contract; update_phase contract; whole get_moves frame contract against abstract callees",
+    "C04": "Kani/CBMC: representation invariant hash == XOR of published keys via leaf-function contracts (full domains), the set_position contract and the modular push/pop step; engine key tables checked against the key file",
+    "C05": "Kani/CBMC: per-feature key distinctness stated on the engine's leaf functions (symbolic square / contents / state bytes); native exhaustive pairwise-XOR test",
+    "C11": "Kani/CBMC on verbatim slices of Game::fen (per rank, fields) with String appends sent to a byte sink, and of the importer; native export->import round-trip test",
+    "C12": "Kani/CBMC: printer and parser contracts over symbolic positions and ALL ASCII strings of length <= 6 (7 in the thorough tier); slice of command_position's per-move step against abstract parser / generator / push_history",
+    "C13": "Kani/CBMC on the verbatim budget slice of command_go over the full u64 domain, std Duration stubbed by an order embedding",
+    "C15": "Verus on the mechanically extracted Position functions; Kani/CBMC contract harnesses whose implicit pointer / bounds / debug-assertion checks are the obligations, per unsafe site",
+    "C16": "Kani/CBMC: Piece::score == specified piece-square value (full domain), set_position contract, modular push/pop step, update_phase contract against an abstract is_endgame",
+    "C17": "Kani/CBMC on verbatim slices of Game::new: scanner step over all chars x all scanner states, field parsers over all short ASCII strings, board-end test, tail",
+    "C20": "Kani/CBMC: Move::pgn_notation against the specified record text for every move value; slices of get_pgn and fen; native display test",
+}.items():
+    PROPS[_p]["technique"] = _t
